@@ -5,6 +5,8 @@ From Coq Require Import ZArith List Bool PrimFloat.
 From FT.lib Require Import Num Arr ArrLemmas Lower NumArr.
 From FT.gen Require Import Common Fteik2d Fteik3d.
 From FT.proofs Require Import NumFLaws Sweep2dProofs Sweep3dProofs FloatInstances Solve2dProofs Solve3dProofs.
+From FT.model Require Import Api.
+From FT.proofs Require ApiGenEq.
 Import ListNotations.
 Open Scope Z_scope.
 
@@ -141,6 +143,18 @@ Theorem C07_converges_binary64_3d :
          (K <= k)%nat -> grid3d slow dz dx dy zsrc xsrc ysrc grad k = grid3d slow dz dx dy zsrc xsrc ysrc grad K.
 Proof. exact @Solve3dProofs.fteik3d_converges. Qed.
 
+(* API layer, extracted from _solver.py on every run (gen/ApiGen.v): the kernel receives (1/grid, spacing, sources - origin as a NEW value, nsweep, flag) - nsweep as given, whatever the other options *)
+Theorem C07_solve_hands_nsweep_to_the_kernel_unchanged_2d :
+  forall (T : Type) (N : Num T) (grid gridsize origin src : list T) (nsweep : Z) (rg : bool),
+       ApiGen.solve_args_2d grid gridsize origin src nsweep rg = (solve_args grid gridsize origin src, nsweep, rg).
+Proof. exact @ApiGenEq.gen_solve_args_2d_eq. Qed.
+
+(* 3D *)
+Theorem C07_solve_hands_nsweep_to_the_kernel_unchanged_3d :
+  forall (T : Type) (N : Num T) (grid gridsize origin src : list T) (nsweep : Z) (rg : bool),
+       ApiGen.solve_args_3d grid gridsize origin src nsweep rg = (solve_args grid gridsize origin src, nsweep, rg).
+Proof. exact @ApiGenEq.gen_solve_args_3d_eq. Qed.
+
 Example C07_okT_inhabited : Sweep2dProofs.okT 2 2 (full [2; 2] 1%float).
 Proof. exact FloatInstances.okT_inhabited. Qed.
 
@@ -157,3 +171,5 @@ Print Assumptions C07_fixed_point_stays_2d.
 Print Assumptions C07_fixed_point_stays_3d.
 Print Assumptions C07_converges_binary64_2d.
 Print Assumptions C07_converges_binary64_3d.
+Print Assumptions C07_solve_hands_nsweep_to_the_kernel_unchanged_2d.
+Print Assumptions C07_solve_hands_nsweep_to_the_kernel_unchanged_3d.
